@@ -67,57 +67,101 @@ def r1_reverse_lookup(ctx):
         ctx.lost(rid, "_is_square_in_check has a loop")
         return
     found = {}   # (kind) -> set of (frozenset accessors, colour condition)
-    problems = []
     true_paths = 0
+    WANT = {"rook": {"rooks", "queens"}, "bishop": {"bishops", "queens"}, "knight": {"knights"}, "king": {"kings"}, "pawn": {"pawns"}}
+
+    def lookup_test(d):
+        """(kind, accessor names, players, square/occupancy ok, table path) when d is `lookup & piece set != 0`"""
+        if not (d[0] == "bin" and d[1] in ("Ne", "Eq") and any(x[0] == "c" and x[1] == 0 for x in (d[2], d[3]))):
+            return None
+        band = d[3] if d[2][0] == "c" else d[2]
+        if not (band[0] == "bin" and band[1] == "BitAnd"):
+            return None
+        sides = [band[2], band[3]]
+        look = [x for x in sides if x[0] == "call" and x[1] in (EXT_MAGIC, EXT_NONMAGIC)]
+        sets = [x for x in sides if x not in look]
+        if len(look) != 1 or len(sets) != 1:
+            return None
+        lk = look[0]
+        tab = resolve_promoted(prog, lk[2][0])
+        while tab[0] in ("&", "*"):
+            tab = tab[1]
+        path = tab[3] if tab[0] == "c" else None
+        kind = table_kind(prog, path) if path else None
+        sq_ok = lk[2][1] == ("param", 3)
+        occ_ok = (len(lk[2]) < 3) or lk[2][2] == ("param", 4)
+        names, players = set_accessors(sets[0])
+        return kind, names, players, sq_ok and occ_ok, path
+
+    def emptiness_guard(d, truth):
+        """accessor names known to be empty on this path: `set == 0` true or `set != 0` false, set read from the attacker"""
+        if not (d[0] == "bin" and d[1] in ("Ne", "Eq") and any(x[0] == "c" and x[1] == 0 for x in (d[2], d[3]))):
+            return None
+        inner = d[3] if d[2][0] == "c" else d[2]
+        names, players = set_accessors(inner)
+        if any(n.startswith("?") for n in names) or players != {("param", 2)}:
+            return None
+        empty = truth if d[1] == "Eq" else not truth
+        return names if empty else None
+
+    path_problems = []
     for pe in pes:
         colour = None
-        tests = []
-        for (d, c, b, ty) in pe.conds:
-            if d[0] == "bin" and d[1] == "Eq" and ("param", 1) in (d[2], d[3]):
-                cst = d[3] if d[2] == ("param", 1) else d[2]
-                try:
-                    cv = fold(cst)
-                    colour = ("==%d" % cv) if c != ("in", (0,)) else ("!=%d" % cv)
-                except Unfoldable:
-                    pass
-            else:
-                tests.append((d, c != ("in", (0,))))
+        consulted, empty_sets, others = {}, set(), []
+        last_positive = None
+        conds = list(pe.conds)
         r = pe.ret()
         try:
             rv = fold(r)
         except Unfoldable:
             rv = None
-            tests.append((r, True))
+            conds.append((r, ("notin", (0,)), -1, "bool"))   # `return test` = true when the test holds: handled as its own case below
+        for (d, c, b, ty) in conds:
+            truth = c != ("in", (0,))
+            if d[0] == "bin" and d[1] == "Eq" and ("param", 1) in (d[2], d[3]):
+                cst = d[3] if d[2] == ("param", 1) else d[2]
+                try:
+                    cv = fold(cst)
+                    colour = ("==%d" % cv) if truth else ("!=%d" % cv)
+                    continue
+                except Unfoldable:
+                    pass
+            lt = lookup_test(d)
+            if lt is not None:
+                kind, names, players, geo_ok, path = lt
+                hit = truth if d[1] == "Ne" else not truth
+                found.setdefault(kind, set()).add((frozenset(names), frozenset(players), colour if kind and "pawn" in kind else None, geo_ok, path))
+                k2 = "pawn" if kind and "pawn" in kind else kind
+                if b == -1:
+                    consulted[k2] = "returned"
+                else:
+                    consulted[k2] = "hit" if hit else "miss"
+                    if hit:
+                        last_positive = k2
+                continue
+            eg = emptiness_guard(d, truth)
+            if eg is not None:
+                empty_sets |= eg
+                continue
+            others.append("%s is %s" % (show(d), "true" if truth else "false"))
         if rv == 1:
             true_paths += 1
-        # the last positive test decides `true`
-        for d, truth in tests:
-            if not (d[0] == "bin" and d[1] == "Ne" and any(x[0] == "c" and x[1] == 0 for x in (d[2], d[3]))):
-                problems.append("unexpected test %s" % show(d))
-                continue
-            band = d[3] if d[2][0] == "c" else d[2]
-            if not (band[0] == "bin" and band[1] == "BitAnd"):
-                problems.append("test is not `lookup & set != 0`: %s" % show(d))
-                continue
-            sides = [band[2], band[3]]
-            look = [s for s in sides if s[0] == "call" and s[1] in (EXT_MAGIC, EXT_NONMAGIC)]
-            sets = [s for s in sides if s not in look]
-            if len(look) != 1 or len(sets) != 1:
-                problems.append("cannot split %s into lookup and piece set" % show(band))
-                continue
-            lk = look[0]
-            tab = resolve_promoted(prog, lk[2][0])
-            while tab[0] in ("&", "*"):
-                tab = tab[1]
-            path = tab[3] if tab[0] == "c" else None
-            kind = table_kind(prog, path) if path else None
-            sq_ok = lk[2][1] == ("param", 3)
-            occ_ok = (len(lk[2]) < 3) or lk[2][2] == ("param", 4)
-            names, players = set_accessors(sets[0])
-            found.setdefault(kind, set()).add((frozenset(names), frozenset(players), colour if kind and "pawn" in kind else None, sq_ok and occ_ok, path))
-    if problems:
-        ctx.lost(rid, "; ".join(sorted(set(problems))[:3]))
-        return
+            if last_positive is None:
+                path_problems.append(("true-without-attacker", "a path returns true without a positive attacker lookup (conditions: %s)" % (others or "none")))
+        elif rv == 0 or rv is None:
+            # `false` (or the value of the last lookup) needs every other kind consulted and missed, or its pieces absent
+            missing = [k for k in sorted(WANT) if consulted.get(k) not in ("miss", "returned") and not (WANT[k] <= empty_sets)]
+            if missing:
+                path_problems.append(("false-without-" + "+".join(missing), "a path answers `not attacked` without consulting the %s table(s)%s" % (
+                    ", ".join(missing), (" - it is taken when " + " and ".join(others)) if others else "")))
+    seen_pp = set()
+    for key, msg in path_problems:
+        if key in seen_pp:
+            continue
+        seen_pp.add(key)
+        ctx.ob(rid, "path|" + key, False, "_is_square_in_check: " + msg, ctx.where(f))
+    ctx.ob(rid, "paths|every-answer-backed-by-lookups", not path_problems, "" if not path_problems else "%d path(s) answer without the lookups the answer needs" % len(path_problems), ctx.where(f),
+           sample={"paths": len(pes), "true_paths": true_paths})
     want = {"rook": {"rooks", "queens"}, "bishop": {"bishops", "queens"}, "knight": {"knights"}, "king": {"kings"}}
     for kind, acc in sorted(want.items()):
         got = found.get(kind, set())
